@@ -1,6 +1,6 @@
 rc_target("c02_map", flavour="asan-dbg")
 rc_target("c02_libhash", flavour="asan")
-plan("C02", [T("c02_map", 20000, 150000), TT(GCC("c02_map"), 8000), T("c02_libhash", 30000, 200000)], min_nt=20000,
+plan("C02", [T("c02_map", 20000, 150000), TT(GCC("c02_map"), 8000), T("c02_libhash", 30000, 200000), TT(GCC("c02_libhash"), 10000)], min_nt=20000,
      rule="stateful command sequences over two hash tables against a reference map with per-object destructor counters; "
           "all-pairs equal=>equal-hash check plus the same map model over the library's own hash/equality pairs",
      technique="model-based property testing (rapidcheck): generated command sequences and generated hash plans vs. a reference "
